@@ -1268,7 +1268,17 @@ def _enumerate_start_to_zero(tree: ast.AST):
                 continue
             i = loop.target.elts[0].id
             inside = {id(x) for b in loop.body for x in ast.walk(b)}
-            occ = [x for x in ast.walk(fn) if isinstance(x, ast.Name) and x.id == i and x is not loop.target.elts[0]]
+            # occurrences inside another loop / comprehension that binds the same name itself are that loop's own variable
+            other = set()
+            for L2 in ast.walk(fn):
+                if L2 is loop:
+                    continue
+                if isinstance(L2, ast.For) and any(isinstance(x, ast.Name) and x.id == i for x in ast.walk(L2.target)) and not any(y is loop for y in ast.walk(L2)):
+                    other |= {id(x) for x in ast.walk(L2)}
+                elif isinstance(L2, (ast.ListComp, ast.SetComp, ast.DictComp, ast.GeneratorExp)) and \
+                        any(isinstance(x, ast.Name) and x.id == i for g in L2.generators for x in ast.walk(g.target)):
+                    other |= {id(x) for x in ast.walk(L2)}
+            occ = [x for x in ast.walk(fn) if isinstance(x, ast.Name) and x.id == i and x is not loop.target.elts[0] and (id(x) not in other or id(x) in inside)]
             if any(id(x) not in inside or not isinstance(x.ctx, ast.Load) for x in occ) or i in {x.id for x in ast.walk(loop.target.elts[1]) if isinstance(x, ast.Name)}:
                 continue
             if any(isinstance(x, (ast.Lambda, ast.FunctionDef)) for b in loop.body for x in ast.walk(b)):
@@ -1677,6 +1687,94 @@ def _partial_jobs_to_submit_args(tree: ast.AST, sigs: Dict[str, List[str]]):
                     if not blk:
                         blk.append(ast.copy_location(ast.Pass(), st))
     ast.fix_missing_locations(tree)
+
+
+def _appended_temporaries(tree: ast.AST):
+    """`t = E` immediately followed by `X.append(t)` (t a plain local bound only there, X a plain local list name), every other read of t in later
+    statements of the same block, during which nothing else is done to X (no call on it, no store into it, no rebinding) and t is not captured:
+    t is the last element of X wherever it is read, so the pair is written `X.append(E)` and the reads `X[-1]`."""
+    for fn in [n for n in ast.walk(tree) if isinstance(n, (ast.FunctionDef, ast.AsyncFunctionDef))]:
+        stores: Dict[str, int] = {}
+        nested = set()
+        for n in ast.walk(fn):
+            if n is not fn and isinstance(n, (ast.FunctionDef, ast.AsyncFunctionDef, ast.Lambda, ast.ClassDef)):
+                nested |= _names_in(n)
+            if isinstance(n, ast.Name) and isinstance(n.ctx, (ast.Store, ast.Del)):
+                stores[n.id] = stores.get(n.id, 0) + 1
+        for node in ast.walk(fn):
+            for fld in ("body", "orelse", "finalbody"):
+                blk = getattr(node, fld, None)
+                if not isinstance(blk, list) or len(blk) < 2 or not isinstance(blk[0], ast.stmt):
+                    continue
+                k = 0
+                while k + 1 < len(blk):
+                    st, nxt = blk[k], blk[k + 1]
+                    k += 1
+                    if not (isinstance(st, ast.Assign) and len(st.targets) == 1 and isinstance(st.targets[0], ast.Name) and getattr(st, "ann", None) is None and
+                            isinstance(nxt, ast.Expr) and isinstance(nxt.value, ast.Call) and isinstance(nxt.value.func, ast.Attribute) and nxt.value.func.attr == "append" and
+                            isinstance(nxt.value.func.value, ast.Name) and len(nxt.value.args) == 1 and not nxt.value.keywords and
+                            isinstance(nxt.value.args[0], ast.Name) and nxt.value.args[0].id == st.targets[0].id):
+                        continue
+                    t, X = st.targets[0].id, nxt.value.func.value.id
+                    if stores.get(t) != 1 or t in nested or X in nested or t == X or X in _names_in(st.value):
+                        continue
+                    rest = blk[k + 1:]
+                    inside = {id(x) for s_ in rest for x in ast.walk(s_)}
+                    reads = [x for x in ast.walk(fn) if isinstance(x, ast.Name) and x.id == t and isinstance(x.ctx, ast.Load) and x is not nxt.value.args[0]]
+                    if any(id(x) not in inside for x in reads):
+                        continue
+                    # nothing else touches X in the rest of the block (reads of X[-1] aside)
+                    touched = False
+                    for s_ in rest:
+                        for x in ast.walk(s_):
+                            if isinstance(x, ast.Name) and x.id == X:
+                                touched = True
+                    if touched or any(isinstance(x, (ast.Try,)) for s_ in rest for x in ast.walk(s_)):
+                        continue
+                    nxt.value.args[0] = st.value
+                    for x in reads:
+                        x.__class__ = ast.Subscript
+                        x.__dict__.pop("id", None)
+                        x.value = ast.Name(id=X, ctx=ast.Load())
+                        x.slice = ast.UnaryOp(op=ast.USub(), operand=ast.Constant(value=1))
+                        x.ctx = ast.Load()
+                    k -= 1
+                    del blk[k]
+    ast.fix_missing_locations(tree)
+
+
+def _extend_generators_to_loops(tree: ast.AST):
+    """the statement `X.extend(<generator expression>)` (X a plain local name that the generator does not read) appends the generator's elements
+    one by one as they are produced: it is the loop nest of the generator ending in `X.append(elt)`."""
+    for fn in [n for n in ast.walk(tree) if isinstance(n, (ast.FunctionDef, ast.AsyncFunctionDef))]:
+        for node in ast.walk(fn):
+            for fld in ("body", "orelse", "finalbody"):
+                blk = getattr(node, fld, None)
+                if not isinstance(blk, list) or not blk or not isinstance(blk[0], ast.stmt):
+                    continue
+                out = []
+                for st in blk:
+                    c = st.value if isinstance(st, ast.Expr) else None
+                    if isinstance(c, ast.Call) and isinstance(c.func, ast.Attribute) and c.func.attr == "extend" and isinstance(c.func.value, ast.Name) and \
+                            len(c.args) == 1 and not c.keywords and isinstance(c.args[0], ast.GeneratorExp) and \
+                            c.func.value.id not in _names_in(c.args[0]) and not any(g.is_async for g in c.args[0].generators):
+                        g = c.args[0]
+                        X = c.func.value.id
+                        inner: ast.stmt = ast.Expr(value=ast.Call(func=ast.Attribute(value=ast.Name(id=X, ctx=ast.Load()), attr="append", ctx=ast.Load()), args=[g.elt], keywords=[]))
+                        for comp in reversed(g.generators):
+                            for cond in reversed(comp.ifs):
+                                inner = ast.If(test=cond, body=[inner], orelse=[])
+                            inner = ast.For(target=comp.target, iter=comp.iter, body=[inner], orelse=[])
+                        ast.copy_location(inner, st)
+                        ast.fix_missing_locations(inner)
+                        # the generator's targets become variables of the function: nobody else may be reading those names
+                        if _loop_targets_dead_outside(fn, inner):
+                            out.append(inner)
+                        else:
+                            out.append(st)
+                    else:
+                        out.append(st)
+                setattr(node, fld, out)
 
 
 def _coalesce_forwarded_temporaries(tree: ast.AST):
@@ -2556,6 +2654,7 @@ def normalise_tree(tree: ast.AST, computed: Set[str] = frozenset(), records: Opt
                 setattr(node, fld, new)
     _lower_match(tree)
     _lower_walrus(tree)
+    _extend_generators_to_loops(tree)
     _fold_constants(tree)
     _scalar_replace_records(tree, records or {})
     _hoist_package_imports(tree)
@@ -2584,6 +2683,7 @@ def normalise_tree(tree: ast.AST, computed: Set[str] = frozenset(), records: Opt
             _canonical_statements(tree)
             _eliminate_aliases(tree)
             _coalesce_forwarded_temporaries(tree)
+    _appended_temporaries(tree)
     _expand_row_stores(tree)
     for fn in [n for n in ast.walk(tree) if isinstance(n, (ast.FunctionDef, ast.AsyncFunctionDef))]:
         for node in ast.walk(fn):
